@@ -84,9 +84,10 @@ def _check_reduce(name, rows_vec, cols_vec, flags, forced, sy, S, w, sols, cand,
     exp_vars = [(sy.col_ids[j], sy.bounds[j][0], sy.bounds[j][1]) for j in keep_c]
     if got_vars != exp_vars:
         raise Violation(f"reduce[{name}]: result.A.variables {got_vars} do not describe the kept columns {exp_vars}")
-    sv = res.variables[0]
-    if len(res.variables) != 1 + len(keep_c) or sv.id != 0:
-        raise Violation(f"reduce[{name}]: result.variables {list(res.variables)} lost the support-vector variable")
+    sv, sv0 = res.variables[0], sy.poly.variables[0]      # whatever labels the support column of the input labels it in the result
+    if len(res.variables) != 1 + len(keep_c) or sv.id != sv0.id or type(sv.id) is not type(sv0.id) or \
+            (int(sv.bounds.lower), int(sv.bounds.upper)) != (int(sv0.bounds.lower), int(sv0.bounds.upper)):
+        raise Violation(f"reduce[{name}]: result.variables {list(res.variables)} lost the variable of the support column ({sv0})")
     got_idx = [v.id for v in res.index]
     exp_idx = [sy.index_ids[i] for i in keep_r]
     if got_idx != exp_idx:
